@@ -25,7 +25,9 @@ type Monitors struct {
 	// failedAt[rs key] = first time the RS was observed Canary-Failed (C07 retention)
 	failedAt map[string]time.Time
 	// created[pod key] = inputs digest at creation (C10 spurious replace)
-	created       map[string]*podInputs
+	created map[string]*podInputs
+	// failedByCmd[rs key]: Canary-Failed was set by a successful kubectl-eds canary fail
+	failedByCmd   map[string]bool
 	templateEdits map[string]int
 	// Disabled rules (prefix match), e.g. when a workload deliberately breaks a premise
 	Disabled map[string]bool
@@ -42,7 +44,7 @@ var safetyProps = map[string]bool{"C01": true, "C03": true, "C04": true, "C05": 
 
 // NewMonitors builds the monitor set.
 func NewMonitors(w *World) *Monitors {
-	return &Monitors{w: w, lastAction: map[string]time.Time{}, failedAt: map[string]time.Time{}, created: map[string]*podInputs{}, templateEdits: map[string]int{}, Disabled: map[string]bool{}}
+	return &Monitors{w: w, lastAction: map[string]time.Time{}, failedAt: map[string]time.Time{}, created: map[string]*podInputs{}, failedByCmd: map[string]bool{}, templateEdits: map[string]int{}, Disabled: map[string]bool{}}
 }
 
 func (m *Monitors) viol(prop, rule string, attrs map[string]string, inv *simapi.Invocation, detail map[string]any) {
@@ -94,7 +96,43 @@ func describeInv(inv *simapi.Invocation) map[string]any {
 func (m *Monitors) OnTemplateEdit(ns, name string) { m.templateEdits[ns+"/"+name]++ }
 
 // OnCommand is called after a kubectl-eds command body ran.
-func (m *Monitors) OnCommand(cmd, ns, name string, inv *simapi.Invocation, err error) {}
+func (m *Monitors) OnCommand(cmd, ns, name string, inv *simapi.Invocation, err error) {
+	if cmd == "canary-fail" && err == nil {
+		if e := kit.GetEDS(m.w.S, ns, name); e != nil && e.Status.Canary != nil {
+			m.failedByCmd[ns+"/"+e.Status.Canary.ReplicaSet] = true
+		}
+	}
+	m.stickyFailed(inv)
+}
+
+// stickyFailed (store level, any actor): a write that takes Canary-Failed=True away from a replica
+// set that is still the canary afterwards. C06: "once true it stays true while that replica set is
+// the canary"; C19: a successful `canary fail` "leads to the rollback", so it must not get lost.
+func (m *Monitors) stickyFailed(inv *simapi.Invocation) {
+	for _, c := range inv.Calls {
+		if c.Kind != simapi.KindERS || !c.IsWrite() || !c.Applied() || c.Pre == nil || c.Post == nil {
+			continue
+		}
+		pre, post := c.Pre.(*v1.ExtendedDaemonSetReplicaSet), c.Post.(*v1.ExtendedDaemonSetReplicaSet)
+		if !oracle.RSCond(pre, v1.ConditionTypeCanaryFailed) {
+			continue
+		}
+		m.w.Ctx.Count("C06.sim-writes-to-failed-canary-judged")
+		if oracle.RSCond(post, v1.ConditionTypeCanaryFailed) {
+			continue
+		}
+		e := kit.GetEDS(m.w.S, pre.Namespace, pre.Labels[v1.ExtendedDaemonSetNameLabelKey])
+		if e == nil || e.Status.Canary == nil || e.Status.Canary.ReplicaSet != pre.Name {
+			continue
+		}
+		d := map[string]any{"rs": pre.Name, "write": c.Verb, "callsite": c.Callsite, "actor": c.Actor, "conditions-before": fmt.Sprintf("%+v", pre.Status.Conditions), "conditions-after": fmt.Sprintf("%+v", post.Status.Conditions)}
+		byCmd := m.failedByCmd[pre.Namespace+"/"+pre.Name]
+		m.viol("C06", "C06.failed-sticky", map[string]string{"set-by-command": fmt.Sprint(byCmd), "write": c.Verb}, inv, d)
+		if byCmd {
+			m.viol("C19", "C19.fail-not-lost", map[string]string{"write": c.Verb}, inv, d)
+		}
+	}
+}
 
 // ---- view extraction ---------------------------------------------------------------------------
 
@@ -238,6 +276,7 @@ func (m *Monitors) OnInvocation(out kit.Outcome) {
 		return
 	}
 	m.ownObjects(inv) // C12 on every controller
+	m.stickyFailed(inv)
 	switch inv.Controller {
 	case "ers":
 		m.onERS(inv, out)
